@@ -641,7 +641,7 @@ def _shadow_overlap(ctx, proc, point, node, nrexcl, verdict):
     """C16 shadow in world A: the engine's overlap verdict for a candidate equals the reference model's
     (force norm > max force, or a non-excluded residue within 0.1 nm), checked on a sample of the candidates."""
     ctx.overlap_seen += 1
-    if nrexcl != 1 or ctx.overlap_seen % 7:
+    if nrexcl != 1 or (ctx.overlap_seen % 7 and not ctx.ignored_mols):
         return
     m = proc.mol_idx
     kind, vec, info = ctx.model.force(point, m, node, ctx.nrexcl_nb.get((m, node), [node]))
@@ -656,6 +656,13 @@ def _shadow_overlap(ctx, proc, point, node, nrexcl, verdict):
             return
         expect = nrm > fmax
     ctx.probe("overlap_verdict_shadowed")
+    if bool(verdict) != expect and ctx.ignored_mols:
+        # the reference model knows nothing of the ignored molecules: a verdict that differs from it means that they
+        # take part in the overlap test of the others
+        ctx.fail("C04", "ignored.no-disturb",
+                 f"with ignored molecules present the overlap verdict for ({m},{node}) at {np.round(point, 6).tolist()} is "
+                 f"{'overlap' if verdict else 'no overlap'}, without them it would be {'overlap' if expect else 'no overlap'}",
+                 ignored_present=True)
     if bool(verdict) != expect:
         ctx.fail("C16", "force", f"candidate for ({m},{node}) at {np.round(point, 6).tolist()}: engine says "
                                  f"{'overlap' if verdict else 'no overlap'}, reference model force "
